@@ -52,6 +52,16 @@ G3    == {5, 11, 31}
 Mv13 == {<<1, 1>>, <<1, 3>>}
 Narrow == /\ (last.a = "Send" => last.args.h # last.args.dst)
           /\ (last.a = "Move" => last.args.h = 1)
+\* the "re-plug" family: as above, but h1 may be plugged into any port (also h2's) and every station may send
+\* every class of frame - in particular the FIRST frame of h1 at a new port may be LLDP / bridge-filtered /
+\* broadcast / multicast / to an unknown address / to a station behind the same port / to itself
+DRe == {1, 2, UNK, BCAST, MCAST, FILT}
+\* ... every destination class in the plain shape, and LLDP-typed frames to the two stations (for an LLDP frame
+\* the design does not look at the destination)
+ReFrames == (DRe \X {"a"}) \cup {<<1, "l">>, <<2, "l">>}
+OnlyH1Moves == last.a = "Move" => last.args.h = 1
+NoSelf == last.a = "Send" => last.args.h # last.args.dst
+Five == 5
 BT == {TRUE}
 BF == {FALSE}
 BB == {TRUE, FALSE}
